@@ -124,7 +124,7 @@ def run(cx):
         cx.check('C12.G1', len(skip) >= 1, u.path, 'arm', 'apex-arm-present', str(len(skip)))
         # per-record effects are unconditional on the accumulated flag, and each arm reaches the next record only through its effect
         for s in ups + ret + rem + rsr:
-            dep = cx.has_guard(s, r'^!?var\(updated\)$')
+            dep = cx.has_guard(s, r'^!?var\(\w+\)$')
             cx.check('C12.G1', not dep, u.path, s.key(), 'effect-independent-of-updated-flag', 'the zone mutation is control-dependent on the `updated` accumulator (short-circuit?)', s.loc)
         if nxt:
             for s, armrx in ((rem[0] if rem else None, EMPTY), (ups[0] if ups else None, '^' + ZCLASS + '$')):
@@ -136,11 +136,11 @@ def run(cx):
                 cx.must_pass('C12.G1', u, nxt, via_blocks={s.bb}, start_blocks=arm, what='arm-reaches-next-record-only-through-its-effect:' + s.label.split('::')[-1])
         # ------------------------------------------------------------ G2 serial
         bump = cx.calls(u, r'increment_soa_serial$|DnssecZoneHandler>::secure_zone$')
-        cx.guard('C12.G2', bump, {'updated': r'^var\(updated\)$', 'auto-increment': r'^\^arg3$', 'all-records-applied': r"^!ok\(<Iter<'a;T> as Iterator>::next\(\^arg2\)\)$"}, expect=2, fn=u)
+        cx.guard('C12.G2', bump, {'updated': r'^var\(\w+\)$', 'auto-increment': r'^\^arg3$', 'all-records-applied': r"^!ok\(<Iter<'a;T> as Iterator>::next\(\^arg2\)\)$"}, expect=2, fn=u)
         f0 = cx.returns(u, r'^Result::Ok\(false\)$')
         cx.guard('C12.G2', f0, {'all-records-applied': r"^!ok\(<Iter<'a;T> as Iterator>::next\(\^arg2\)\)$"}, expect=1, fn=u)
         for s in f0:
-            cx.check('C12.G2', not cx.has_guard(s, r'^var\(updated\)$') or not cx.has_guard(s, r'^\^arg3$'), u.path, s.key(), 'Ok(false)-only-when-not(updated&&auto)', '', s.loc)
+            cx.check('C12.G2', not cx.has_guard(s, r'^var\(\w+\)$') or not cx.has_guard(s, r'^\^arg3$'), u.path, s.key(), 'Ok(false)-only-when-not(updated&&auto)', '', s.loc)
     rc = cx.fn('C12.G1', S + 'update_records::{closure#0}::{closure@retain#0}')
     for g in prog.find(r'SqliteZoneHandler::update_records::\{closure#0\}::\{closure[^}]*\}$'):
         t = cx.true_returns(g)
